@@ -3,7 +3,11 @@
 package zzverif
 
 import (
+	"context"
+	"errors"
 	"time"
+
+	"github.com/failsafe-go/failsafe-go/ratelimiter"
 
 	"github.com/failsafe-go/failsafe-go"
 	"github.com/failsafe-go/failsafe-go/internal/zzvrt"
@@ -29,10 +33,15 @@ func ZZ_S13h_RetryDelay() {
 		zzvrt.CtrAdd("scheduled", 1)
 		zzvrt.Assert(e.Delay >= 0, "delay: non-negative")
 		zzvrt.Assert(e.Delay <= D, "delay: fixed delay, possibly shortened by the remaining max duration")
+		if maxDur != 0 {
+			zzvrt.Assert(zzvrt.Now()-zzvrt.CellGet("execStart")+int64(e.Delay) <= int64(maxDur), "delay: never extends past the remaining max duration")
+		}
 	}).Build()
 	start := zzvrt.Now()
+	zzvrt.CellSet("execStart", start)
 	failsafe.NewExecutor[int](rp).GetWithExecution(func(e failsafe.Execution[int]) (int, error) {
 		k := zzvrt.CtrAdd("starts", 1)
+		zzvrt.Assert(k <= 3, "retry: at most maxRetries+1 attempts")
 		if k > 1 {
 			zzvrt.Assert(zzvrt.CtrGet("scheduled") == k-1, "events: OnRetryScheduled once per retry decided")
 			zzvrt.Assert(zzvrt.Now()-zzvrt.CellGet("scheduledAt") >= zzvrt.CellGet("scheduledDelay"), "delay: the next attempt never starts before the scheduled delay has elapsed")
@@ -49,4 +58,92 @@ func ZZ_S13h_RetryDelay() {
 	zzvrt.Assert(zzvrt.CtrGet("starts") <= 3, "retry: at most maxRetries+1 attempts")
 	zzvrt.Assert(zzvrt.ArmedTimers() == 0, "leak: no library timer left armed after retries")
 	zzvrt.Reach("retry-delay-done")
+}
+
+// S05f: a blocking acquire does not succeed before its wait has elapsed (smooth and bursty), and
+// returns the context error instead when cancelled earlier.
+func ZZ_S05f_BlockingAcquire() {
+	const I = 1000
+	bursty := zzvrt.Choose("bursty", 2) == 1
+	var rl ratelimiter.RateLimiter[int]
+	if bursty {
+		rl = ratelimiter.Bursty[int](1, I)
+	} else {
+		rl = ratelimiter.SmoothWithMaxRate[int](I)
+	}
+	t0 := zzvrt.Now() // the limiter's stopwatch starts now
+	off := symDur("firstAt", 0, 30)
+	zzvrt.Sleep(off)
+	zzvrt.Assert(rl.AcquirePermit(context.Background()) == nil, "limiter: the first permit needs no wait")
+	t1 := zzvrt.Now() - t0
+	zzvrt.Assert(t1 == int64(off), "limiter: the first permit needs no wait")
+	d := symDur("gap", 0, 30)
+	zzvrt.Sleep(d)
+	cancelAt := symDur("cancelAfter", 0, 30)
+	ctx, cancel := context.WithCancel(context.Background())
+	if zzvrt.Choose("cancelling", 2) == 1 {
+		go func() {
+			zzvrt.Sleep(cancelAt)
+			cancel()
+		}()
+	}
+	req := zzvrt.Now() - t0
+	err := rl.AcquirePermit(ctx)
+	got := zzvrt.Now() - t0
+	// the slot / period after the one the first permit used
+	nextFree := (t1/I + 1) * I
+	if err == nil {
+		if req < nextFree {
+			zzvrt.Assert(got >= nextFree, "limiter: a blocking acquire does not succeed before its wait has elapsed")
+			zzvrt.Assert(got == nextFree, "limiter: a blocking acquire succeeds as soon as its wait has elapsed")
+		} else {
+			zzvrt.Assert(got == req, "limiter: no wait when the slot is free")
+		}
+	} else {
+		zzvrt.Assert(err == context.Canceled, "limiter: a cancelled blocking acquire returns the context error")
+		if req < nextFree {
+			zzvrt.Assert(got <= nextFree, "limiter: a cancelled blocking acquire returns at the cancellation, not later than its wait")
+		} else {
+			zzvrt.Assert(got == req, "limiter: a cancelled blocking acquire returns at the cancellation, not later than its wait")
+		}
+	}
+	cancel()
+	zzvrt.Quiesce()
+	zzvrt.Assert(zzvrt.ArmedTimers() == 0, "leak: no library timer left armed after a blocking acquire")
+	zzvrt.Reach("blocking-acquire-done")
+}
+
+// S02d: two concurrent executions sharing one retry policy: each has its own full budget.
+func ZZ_S02d_ConcurrentBudgets() {
+	rp := retrypolicy.Builder[int]().WithMaxRetries(1).Build()
+	ex := failsafe.NewExecutor[int](rp)
+	res := make([]failsafe.ExecutionResult[int], 2)
+	for i := 0; i < 2; i++ {
+		k := i
+		d := symDur("d", 0, 30)
+		succeedSecond := zzvrt.Choose("second-attempt-succeeds", 2) == 1
+		res[k] = ex.GetWithExecutionAsync(func(e failsafe.Execution[int]) (int, error) {
+			n := zzvrt.CtrAdd(idx("calls", k), 1)
+			zzvrt.Assert(n <= 2, "retry: at most maxRetries+1 attempts per execution")
+			zzvrt.Assert(e.Attempts() == n, "stats: Attempts is per execution")
+			zzvrt.Sleep(d)
+			if n == 2 && succeedSecond {
+				return 7, nil
+			}
+			return 0, errA
+		})
+		zzvrt.CellSet(idx("succeed", k), b2i(succeedSecond))
+	}
+	for k := 0; k < 2; k++ {
+		v, err := res[k].Get()
+		zzvrt.Assert(zzvrt.CtrGet(idx("calls", k)) == 2, "retry: each execution sharing the policy gets its own full budget")
+		if zzvrt.CellGet(idx("succeed", k)) == 1 {
+			zzvrt.Assert(err == nil, "retry: stops at the first success")
+			zzvrt.Assert(v == 7, "retry: stops at the first success")
+		} else {
+			zzvrt.Assert(errors.Is(err, retrypolicy.ErrExceeded), "retry: gives up with ExceededError")
+		}
+	}
+	zzvrt.Quiesce()
+	zzvrt.Reach("concurrent-budgets-done")
 }
